@@ -228,21 +228,34 @@ func (p *Prog) lin(v ssa.Value, d int) Lin {
 		m := p.Eval(nil, x.X)
 		return LinAtom("M(" + p.PathAtom(m) + ")[" + p.lin(x.Index, d+1).String() + "]")
 	case *ssa.Phi:
+		if p.inLinPhi == nil {
+			p.inLinPhi = map[*ssa.Phi]bool{}
+		}
+		if p.inLinPhi[x] {
+			return LinAtom("phi:" + pickPhiName(x))
+		}
+		p.inLinPhi[x] = true
 		var first Lin
 		same := true
-		for i, e := range x.Edges {
+		n := 0
+		for _, e := range x.Edges {
 			if e == v {
 				continue
 			}
 			l := p.lin(e, d+1)
-			if i == 0 {
+			if n == 0 {
 				first = l
 			} else if !l.Equal(first) {
 				same = false
 			}
+			n++
 		}
-		if same && first.T != nil {
-			return first
+		delete(p.inLinPhi, x)
+		if same && n > 0 && first.T != nil {
+			// a loop-carried value is not equal to its own seed
+			if _, self := first.T["phi:"+pickPhiName(x)]; !self {
+				return first
+			}
 		}
 		return LinAtom("phi:" + pickPhiName(x))
 	case *ssa.Parameter:
@@ -585,4 +598,29 @@ func EquivDNF(a, b DNF) (bool, string) {
 		return true, ""
 	}
 	return rec(0)
+}
+
+// EdgeCond is PathCond to the end of pred, conjoined with the condition of taking the edge pred->succ.
+func (p *Prog) EdgeCond(fn *ssa.Function, from *ssa.BasicBlock, pred, succ *ssa.BasicBlock, keep func(form string) bool) DNF {
+	term := pred.Instrs[len(pred.Instrs)-1]
+	d := p.PathCond(fn, from, term, keep)
+	ifi, ok := term.(*ssa.If)
+	if !ok || (pred.Succs[0] == succ && pred.Succs[1] == succ) {
+		return d
+	}
+	lit := p.CondLit(ifi.Cond, pred.Succs[0] == succ)
+	if keep != nil && !keep(lit.Form) {
+		return d
+	}
+	var out DNF
+	for _, c := range d {
+		cp := Conj{}
+		for k, v := range c {
+			cp[k] = v
+		}
+		if cp.and(lit) {
+			out = append(out, cp)
+		}
+	}
+	return out
 }
